@@ -346,8 +346,10 @@ class SegmentTypeA:
         value = pack('!BBL', self.flags, 0, label_entry)
         return pack('!BB', self.SUBTYPE, len(value)) + value
 
-    def json(self) -> str:
-        return f'{{"type": "A", "label": {self.label}, "tc": {self.tc}, "s": {str(self.s).lower()}, "ttl": {self.ttl}}}'
+    def json(self, is_last: bool = False) -> str:
+        """is_last: as for pack(), so that the S-bit rendered is the S-bit sent."""
+        s_bit = is_last or self.s
+        return f'{{"type": "A", "label": {self.label}, "tc": {self.tc}, "s": {str(s_bit).lower()}, "ttl": {self.ttl}}}'
 
     @classmethod
     def unpack(cls, data: Buffer) -> SegmentTypeA:
@@ -490,7 +492,8 @@ class SegmentTypeC:
 
         return pack('!BB', self.SUBTYPE, len(value)) + value
 
-    def json(self) -> str:
+    def json(self, is_last: bool = False) -> str:
+        """is_last: as for pack(), so that the S-bit rendered is the S-bit sent."""
         parts = [
             '"type": "C"',
             f'"ipv4_node": "{self.ipv4_node}"',
@@ -501,7 +504,7 @@ class SegmentTypeC:
                 [
                     f'"sid": {self.sid}',
                     f'"tc": {self.tc}',
-                    f'"s": {str(self.s).lower()}',
+                    f'"s": {str(is_last or self.s).lower()}',
                     f'"ttl": {self.ttl}',
                 ]
             )
@@ -1610,16 +1613,7 @@ class SegmentListSubTLV(SubTLV):
         data = b'\x00'  # Reserved byte
         data += self.weight.pack()
 
-        # Find the index of the last segment with MPLS label (Type A or Type C with SID)
-        last_mpls_idx = -1
-        for i in range(len(self.segments) - 1, -1, -1):
-            seg_i = self.segments[i]
-            if isinstance(seg_i, SegmentTypeA):
-                last_mpls_idx = i
-                break
-            elif isinstance(seg_i, SegmentTypeC) and seg_i.sid is not None:
-                last_mpls_idx = i
-                break
+        last_mpls_idx = self._last_mpls_index()
 
         # Pack each segment, setting S-bit only on the last MPLS segment
         for i, seg in enumerate(self.segments):
@@ -1630,8 +1624,24 @@ class SegmentListSubTLV(SubTLV):
 
         return data
 
+    def _last_mpls_index(self) -> int:
+        """Index of the last segment with an MPLS label (Type A, or Type C with a SID), -1 if none."""
+        for i in range(len(self.segments) - 1, -1, -1):
+            seg_i = self.segments[i]
+            if isinstance(seg_i, SegmentTypeA):
+                return i
+            if isinstance(seg_i, SegmentTypeC) and seg_i.sid is not None:
+                return i
+        return -1
+
     def json(self) -> str:
-        segs_json = ', '.join(seg.json() for seg in self.segments)
+        # the S-bit of the last MPLS segment is set when the list is packed, whatever the segment
+        # says: a list built from text said "s": false and sent (and, once decoded, said) true
+        last_mpls_idx = self._last_mpls_index()
+        segs_json = ', '.join(
+            seg.json(is_last=i == last_mpls_idx) if isinstance(seg, (SegmentTypeA, SegmentTypeC)) else seg.json()
+            for i, seg in enumerate(self.segments)
+        )
         return f'{{"weight": {self.weight.weight}, "segments": [{segs_json}]}}'
 
     def __str__(self) -> str:
